@@ -179,8 +179,8 @@ fn judge_parse(real: &Real, base: &M, input: &str, out: &Outcome) -> (Verdict, b
     }
 }
 
-const TOKENS: [&str; 31] = [
-    "(", ")", "1", "16777217", "-2147483648", "-1000000000", "+2147483647", "00000000042", "-7", "+5", "2147483648", "1.5", "1e3", "inf", "NaN", "TRUE", "FALSE", "true", "foo", "INTEGER.+", "INT[1,2]", "INT[]", "INT[", "INT[x]", "INT[1,é", "BOOL[1,0]", "BOOL[2]", "BOOL[", "FLOAT[1.5,inf]", "FLOAT[", "é",
+const TOKENS: [&str; 34] = [
+    "(", ")", "1.0000000596046448", "FLOAT[1.0000000596046448,340282356779733661637539395458142568447]", "340282356779733661637539395458142568447", "1", "16777217", "-2147483648", "-1000000000", "+2147483647", "00000000042", "-7", "+5", "2147483648", "1.5", "1e3", "inf", "NaN", "TRUE", "FALSE", "true", "foo", "INTEGER.+", "INT[1,2]", "INT[]", "INT[", "INT[x]", "INT[1,é", "BOOL[1,0]", "BOOL[2]", "BOOL[", "FLOAT[1.5,inf]", "FLOAT[", "é",
 ];
 // U+00A0 (no-break space) and U+000B (vertical tab) are white space, but not ASCII white space
 const CHARS: [char; 13] = ['I', 'N', 'T', '[', ']', '(', ')', ',', '1', ' ', 'é', '\u{a0}', '\u{b}'];
@@ -342,6 +342,9 @@ fn atoms_float() -> Vec<Tree> {
     vec![
         Tree::F(0.0),
         Tree::F(-0.0),
+        // negative values that print as -0.000
+        Tree::F(-0.0004),
+        Tree::F(-1e-40),
         Tree::F(1.0),
         Tree::F(1.5),
         Tree::F(0.0004),
